@@ -20,7 +20,9 @@ ALPHA = {
 }
 BASE = {'kex': ['sntrup761x25519-sha512@openssh.com', 'ext-info-s'], 'key': ['ssh-ed25519', 'ssh-frob@example.org'],
         'enc': ['aes128-ctr', 'aes128-gcm@openssh.com'], 'mac': ['hmac-sha2-512', 'umac-128-etm@openssh.com']}
-COMPS = [['none'], ['none', 'zlib@openssh.com'], ['zlib', 'zlib@openssh.com', 'none'], ['frobz@example.org'], [], ['none', 'none']]
+COMPS = [['none'], ['none', 'zlib@openssh.com'], ['zlib', 'zlib@openssh.com', 'none'], ['frobz@example.org'], [], ['none', 'none'],
+         # "as sent": in the peer's order (not the alphabet's), each method as often as it was listed
+         ['zlib@openssh.com', 'zlib', 'none'], ['zstd@example.org', 'zlib'], ['zlib', 'zlib'], ['zlib@openssh.com', 'none', 'zlib@openssh.com']]
 RENDER = {'plain': ['-n'], 'batch': ['-n', '-b'], 'verbose': ['-n', '-v'], 'json': ['-n', '-j'], 'color': []}
 BANNERS = [b'SSH-2.0-OpenSSH_9.6', b'SSH-2.0-dropbear_2022.83', b'SSH-2.0-FrobSSH_1.0 some comment', b'SSH-1.99-OpenSSH_4.3']
 
